@@ -102,6 +102,12 @@ public:
     size_t max_steps = 20000;
     unsigned pct_depth = 0;            // C04: > 0 selects the priority scheduler
     size_t pct_horizon = 3000;         // C04
+    // C04: race-directed scheduling.  A thread that is about to access the atomic it accessed last
+    // (`--x; if (x == 0)`, `if (x == 0) x = n`, ...) stands in a check-then-act window.  With
+    // probability window_bias/256 the scheduler then prefers the other threads: PCT mode lowers the
+    // thread's priority below all others (an additional, targeted change point), PRNG mode parks the
+    // thread for a few scheduling decisions.
+    unsigned window_bias = 0;
     ::std::function<void(const ::std::vector<Blocked>&)> on_stuck;
     // called on the acting logical thread right after an event was logged
     ::std::function<void(int tid, Op op, const void* obj, long long val)> on_event;
@@ -162,6 +168,8 @@ private:
         ::std::function<void()> fn;
         const void* spin_addr = nullptr;
         unsigned long long spin_val = 0;
+        const void* last_atomic = nullptr;   // C04: the atomic this thread accessed last
+        size_t park_until = 0;               // C04: not preferred before this step count
     };
     enum class Mode { Idle, Running, Aborting };
     static constexpr int CTRL = -2;
@@ -242,15 +250,30 @@ inline int Sched::pick(LThread* last) {
                 opts.push_back(t->id);
     int next;
     size_t idx;
+    // C04: check-then-act window of the arriving thread
+    bool window = window_bias > 0 && last && !last->finished &&
+                  (last->pend.op == Op::Load || last->pend.op == Op::Store || last->pend.op == Op::Rmw) &&
+                  last->pend.obj == last->last_atomic && !last->pend.spin;
+    bool biased = window && (draw() & 255) < window_bias;
     if (pct_depth > 0) {   // C04: priority scheduling
         while (prio_.size() < th_.size()) prio_.push_back(1000 + static_cast<long>(draw() % 100000));
         for (size_t cp : change_)
             if (cp == steps && last) prio_[last->id] = --low_;
+        if (biased) prio_[last->id] = --low_;
         idx = 0;
         for (size_t i = 1; i < opts.size(); ++i) if (prio_[opts[i]] > prio_[opts[idx]]) idx = i;
         next = opts[idx];
         resolved.push_back(256 * idx + 255);
         return next;
+    }
+    if (biased) last->park_until = steps + 2 + draw() % 24;
+    {   // C04: parked threads are chosen only when nobody else can run
+        ::std::vector<int> awake;
+        for (int o : opts) if (th_[o]->park_until <= steps) awake.push_back(o);
+        if (!awake.empty() && awake.size() < opts.size()) {
+            opts.swap(awake);
+            if (last && last->park_until > steps) last_enabled = false;
+        }
     }
     uint64_t c = draw();
     if (last_enabled && (c & 255) < stick) {
@@ -530,6 +553,7 @@ inline void Sched::atomic_pre(Op op, const void* obj, const ::std::function<unsi
     sync(p);
     if (op == Op::Load) { self->spin_addr = obj; self->spin_val = cur(); }
     else self->spin_addr = nullptr;
+    self->last_atomic = obj;   // C04
 }
 
 inline void Sched::atomic_post(Op op, const void* obj, long long val) {
